@@ -192,7 +192,7 @@ func (i Int8) ExponentiateInt8(other Int8) Int8 {
 	}
 	result := i
 	var j Int8
-	for j = 2; j <= other; j++ {
+	for j = other; j > 1; j-- {
 		result *= i
 	}
 	return result
